@@ -1,4 +1,4 @@
-import TinsModel.RadioTap.LemmasGet
+import TinsModel.RadioTap.LemmasSer
 /- Property C11 — RadioTap fields can be set in any order and read back.
    Theorems only (helper lemmas live in TinsModel/RadioTap/Lemmas*.lean).  The model (`writeOption`, `doFindOption`,
    `present`, `trailerSize`, `applyWrites`, `defaultCtor`) runs on the field table generated from the source
@@ -106,6 +106,33 @@ theorem history_observations (ws : List (Nat × Bytes)) (h : ∀ w ∈ ws, valid
   have hs := sized_lastWrite ws default_sized h
   exact ⟨_, setters_any_order ws h, rfl, fun b => getter_last_write _ hs b, (present_is_domain _ hs).1⟩
 
+/-- **length_covers / reparse_same** — serialising a header whose payload is canonical for `m` (with an inner frame
+    of `innerLen` bytes) writes the 4-byte fixed header followed by exactly the canonical payload, the length field
+    covers exactly those bytes, the trailer is 4 bytes iff FCS is flagged, and the parsing constructor applied to the
+    result yields the same version / pad / payload (hence, by `getter_last_write`, the same field values) and hands
+    exactly the inner frame's `innerLen` bytes to the 802.11 parser.  Hypotheses: the header fits the 16-bit length
+    field, at least 4 bytes follow the header (libtins refuses shorter packets), and the frame is not flagged
+    FCS + FAILED_FCS (libtins refuses to parse those by design). -/
+theorem serialize_reparse (m : FMap) (hm : sized stdMeta m) (ver pad innerLen : Nat) (hver : ver < 256) (hpad : pad < 256)
+    (hlen : 4 + (canonical stdMeta m).length < 65536)
+    (hinner : 4 ≤ innerLen + (if fcsOn m then 4 else 0))
+    (hok : ¬ (fcsOn m = true ∧ badFcs m = true)) :
+    ∃ hdr, serializeHdr genMeta { version := ver, pad := pad, payload := canonical stdMeta m } innerLen
+        = .ok (4 + (canonical stdMeta m).length + (if fcsOn m then 4 else 0) + innerLen, hdr, if fcsOn m then 4 else 0) ∧
+      hdr.length = 4 + (canonical stdMeta m).length ∧
+      byteAt hdr 2 + 256 * byteAt hdr 3 = hdr.length ∧
+      hdr.drop 4 = canonical stdMeta m ∧
+      parseCtor genMeta hdr (4 + (canonical stdMeta m).length + (if fcsOn m then 4 else 0) + innerLen)
+        = .ok ({ version := ver, pad := pad, payload := canonical stdMeta m }, innerLen) := by
+  rw [gen_meta_eq_std]
+  have hwf : stdMeta.wf := gen_meta_eq_std ▸ gen_meta_wf
+  have hfl : stdMeta.size 1 = 1 := by decide
+  refine ⟨_, ?_, ?_, ?_, ?_, parseCtor_serialized hwf hfl hm ver pad innerLen hver hpad hlen hinner hok⟩
+  · simp only [serializeHdr, trailerSize_eq hwf hfl hm]
+  · simp; omega
+  · simp [byteAt]; omega
+  · simp
+
 /-! non-vacuity: a history that inserts below, between and above existing fields and overwrites one -/
 example : ∀ w ∈ [((18 : Nat), ([1, 2, 3, 4, 5, 6, 7, 8] : Bytes)), (2, [7]), (15, [1, 0]), (17, [5]), (2, [9])],
     validWrite stdMeta w := by decide
@@ -113,5 +140,7 @@ example : ∀ w ∈ [((18 : Nat), ([1, 2, 3, 4, 5, 6, 7, 8] : Bytes)), (2, [7]),
 example : sized stdMeta defaultMap := default_sized
 
 example : (lastWrite defaultMap [(2, [7]), (2, [9])]) 2 = some [9] := by decide
+
+example : fcsOn defaultMap = true ∧ badFcs defaultMap = false ∧ 4 + (canonical stdMeta defaultMap).length = 26 := by decide
 
 end Tins.Props.C11
